@@ -61,6 +61,8 @@ class Index:
                 self._add(FuncInfo(module, None, node.name, node, rel))
             elif isinstance(node, ast.Assign):
                 self._const(module, None, node)
+            elif isinstance(node, ast.AnnAssign) and node.value is not None and isinstance(node.target, ast.Name):
+                self._const(module, None, ast.Assign(targets=[node.target], value=node.value))
             elif isinstance(node, ast.ClassDef):
                 self.classes.setdefault(node.name, module)
                 for b in node.bases:
@@ -86,11 +88,18 @@ class Index:
         if len(node.targets) != 1 or not isinstance(node.targets[0], ast.Name):
             return
         name = node.targets[0].id
+        _MISSING = object()
         try:
             val = ast.literal_eval(node.value)
         except Exception:
+            val = _fold(node.value)
+            if val is None:
+                val = _MISSING
+        if val is _MISSING:
             v = node.value
-            if isinstance(v, ast.Call) and isinstance(v.func, ast.Name) and v.func.id == "float" and v.args \
+            if False:
+                pass
+            elif isinstance(v, ast.Call) and isinstance(v.func, ast.Name) and v.func.id == "float" and v.args \
                     and isinstance(v.args[0], ast.Constant) and v.args[0].value in ("nan", "NaN"):
                 val = float("nan")
             else:
@@ -112,6 +121,24 @@ class Index:
         if len(c) == 1:
             return c[0]
         return None
+
+
+def _fold(e):
+    """constant folding of arithmetic on numeric literals (module constants such as 1.0 / 298.257223563)"""
+    if isinstance(e, ast.Constant) and isinstance(e.value, (int, float)) and not isinstance(e.value, bool):
+        return e.value
+    if isinstance(e, ast.UnaryOp) and isinstance(e.op, (ast.USub, ast.UAdd)):
+        v = _fold(e.operand)
+        return None if v is None else (-v if isinstance(e.op, ast.USub) else v)
+    if isinstance(e, ast.BinOp) and isinstance(e.op, (ast.Add, ast.Sub, ast.Mult, ast.Div)):
+        a, b = _fold(e.left), _fold(e.right)
+        if a is None or b is None:
+            return None
+        try:
+            return {ast.Add: a + b, ast.Sub: a - b, ast.Mult: a * b, ast.Div: a / b}[type(e.op)]
+        except Exception:
+            return None
+    return None
 
 
 def number_loops(fnode):
